@@ -733,6 +733,13 @@ type semVerdict struct {
 }
 
 func runSem(sc *semCase, src string, checkLog bool) semVerdict {
+	return runSemVia(sc, src, checkLog, false)
+}
+
+// runSemVia: with via set, the source is not rendered directly but by a Go helper that renders it with the
+// HelperContext it was given (plush.Render(src, help)), called from the one-tag template <%= viahelp() %>: the
+// evaluator then works on a context that is not a *plush.Context.  The result must be the same.
+func runSemVia(sc *semCase, src string, checkLog bool, via bool) semVerdict {
 	env := newRunEnv()
 	if len(sc.PartsR) > 0 && sc.PartsR[0] == '{' {
 		json.Unmarshal(sc.PartsR, &sc.Parts)
@@ -741,6 +748,14 @@ func runSem(sc *semCase, src string, checkLog bool) semVerdict {
 		env.parts[k] = decodeChars(v)
 	}
 	ctx := env.contextW(sc.Data, sc.Wrapped)
+	if via {
+		inner := src
+		ctx.Set("viahelp", func(help plush.HelperContext) (template.HTML, error) {
+			out, err := plush.Render(inner, help)
+			return template.HTML(out), err
+		})
+		src = "<%= viahelp() %>"
+	}
 	o := renderObserved(src, ctx)
 	v := semVerdict{Obs: o}
 	switch {
